@@ -45,6 +45,7 @@ class C19(Prop):
         case = {'formula': f, 'data': lang.gen_trace(rng, names, n), 'period': rng.choice(sorted(PERIODS))}
         if rng.random() < 0.12:
             case['useed'] = rng.randrange(1 << 30)
+        case['again'] = rng.random() < 0.25
         return case
 
     def judge(self, case):
@@ -70,7 +71,20 @@ class C19(Prop):
         v.info['period:' + case['period']] = 1
         sig = dict((k, [(P * i, data[k][i]) for i in range(n)]) for k in names)
         try:
-            dense = drive.ct_offline(text, names, sig)
+            md = drive.Mon('ct', {'text': text, 'vars': list(names)})
+            dense = md.evaluate(*drive.ct_args(sig, names))
+            if case.get('again'):
+                # the requirement-set loop: another dense-time specification is evaluated in between, then this one
+                # again on the same data - it must still answer for its own formula
+                other = drive.Mon('ct', {'text': '(historically[0,%s] (%s <= 2))' % (lang.num(P), names[0]),
+                                         'vars': list(names)})
+                other.evaluate(*drive.ct_args(sig, names))
+                dense2 = md.evaluate(*drive.ct_args(sig, names))
+                v.info['class:evaluated-again-after-another-object'] = 1
+                if repr(dense2) != repr(dense):
+                    v.bad('dense-changes-on-re-evaluation', '%s: the dense-time result changed after another dense-time '
+                          'object was evaluated: %s -> %s' % (text, dense[:8], dense2[:8]))
+                    return v
         except Exception as e:
             v.bad('dense-raises:' + type(e).__name__, '%s: dense evaluate raised %s: %s' % (text, type(e).__name__, e))
             return v
